@@ -86,7 +86,9 @@ func main() {
 	modes := []string{"seq", "conc"}
 	raceKeysSeen := map[string]bool{}
 	for _, mode := range modes {
+		t0 := time.Now()
 		res, viols, crash := runChild(self, work, mode, r)
+		r.Extra("wall_s_"+mode+"_worker", float64(int(time.Since(t0).Seconds()*10))/10) // informational only
 		for _, v := range viols {
 			r.Violation(v.Key, v.What, v.Case)
 		}
